@@ -832,6 +832,77 @@ func scenOpenCaps(e *Env, args []string, r *rand.Rand) {
 	e.close()
 }
 
+// fuzz:<dir>:<state>:k=<n> — a well-formed prefix followed by mutated / random bytes at a given state; afterwards
+// another configured peer must still establish and Close must return (C05)
+func scenFuzz(e *Env, args []string, r *rand.Rand) {
+	dir, state := args[0], args[1]
+	p1 := e.addPeer(1, PeerOpts{LocalAS: localAS, RemoteAS: remoteAS, Hold: 90, Passive: dir == "in", IdleHold: 5 * time.Second})
+	p2 := e.addPeer(2, PeerOpts{LocalAS: localAS, RemoteAS: remoteAS, Hold: 90, Passive: true})
+	e.serve()
+	c := p1.bring(dir, state, 90, remoteID)
+	if c != nil {
+		var b []byte
+		// some valid messages first
+		for k := r.Intn(3); k > 0; k-- {
+			if state == "established" {
+				b = append(b, wire.Update([]byte{0, 0, 0, 0})...)
+			}
+		}
+		junk := func() []byte {
+			switch r.Intn(5) {
+			case 0: // random bytes
+				x := make([]byte, 1+r.Intn(200))
+				r.Read(x)
+				return x
+			case 1: // valid header, random type / length
+				x := wire.Header(uint8(r.Intn(7)), make([]byte, r.Intn(60)))
+				x[16], x[17] = byte(r.Intn(256)), byte(r.Intn(256))
+				return x
+			case 2: // OPEN with mutated body
+				x := wire.Open(remoteAS, 90, remoteID)
+				for k := 0; k < 3; k++ {
+					x[19+r.Intn(len(x)-19)] = byte(r.Intn(256))
+				}
+				return x
+			case 3: // UPDATE / NOTIFICATION with extreme bodies
+				if r.Intn(2) == 0 {
+					return wire.Update(make([]byte, 4077))
+				}
+				return wire.Header(3, nil)
+			default: // a maximal-length message of an unknown type followed by garbage
+				x := wire.Header(9, make([]byte, 4077))
+				return append(x, 1, 2, 3)
+			}
+		}
+		b = append(b, junk()...)
+		b = append(b, junk()...)
+		var segs []int
+		for rem := len(b); rem > 0; {
+			sz := 1 + r.Intn(300)
+			if sz > rem {
+				sz = rem
+			}
+			segs = append(segs, sz)
+			rem -= sz
+		}
+		c.send(b, segs...)
+		c.mu.Lock()
+		ended := c.ended
+		c.mu.Unlock()
+		if ended == "" {
+			time.Sleep(30 * time.Millisecond)
+		}
+		c.drainClose()
+	}
+	// the other peer is unaffected
+	c2 := p2.bring("in", "established", 90, remoteID)
+	if c2 != nil {
+		c2.send(wire.Update([]byte{0, 0, 0, 7}))
+		p2.waitEv(0, stepWait, "cb.enter", "handler", "*", "00000007")
+	}
+	e.close()
+}
+
 var _ = bgp.ErrServerClosed
 
 func init() {
@@ -845,6 +916,7 @@ func init() {
 	families["damping"] = scenDamping
 	families["damping-both"] = scenDampingBoth
 	families["admission"] = scenAdmission
+	families["fuzz"] = scenFuzz
 	families["inbound-fin"] = scenInboundFin
 	families["api-race"] = scenAPIRace
 	families["open-caps"] = scenOpenCaps
@@ -1066,6 +1138,17 @@ func init() {
 		var out []string
 		for _, p := range []string{"C08", "C09", "C02"} {
 			out = append(out, scenarioLists[p](tier, r)...)
+		}
+		n := 8
+		if tier == "thorough" {
+			n = 150
+		}
+		for i := 0; i < n; i++ {
+			for _, dir := range []string{"out", "in"} {
+				for _, st := range []string{"openSent", "openConfirm", "established"} {
+					out = append(out, fmt.Sprintf("fuzz:%s:%s:k=%d", dir, st, i))
+				}
+			}
 		}
 		return out
 	}
